@@ -16,7 +16,7 @@ cp -r "$here/py2v" "$tmp/py2v"
 for f in Gen NixLex Refine NPathProofs SplitProofs ScopeSel; do run "$tmp/py2v" coqc $f.v; done
 echo "py2v: ok"
 cp -r "$here/resolve" "$tmp/resolve"
-for f in ResolveCore ResolveProofs; do run "$tmp/resolve" coqc -Q . R $f.v; done
+for f in ResolveCore ResolveProofs AssignThrough; do run "$tmp/resolve" coqc -Q . R $f.v; done
 echo "resolve: ok"
 cp -r "$here/chain" "$tmp/chain"
 for f in ChainModel ChainProps ChainInv; do run "$tmp/chain" coqc -Q . C $f.v; done
